@@ -43,14 +43,16 @@ def direct_cases(ctx, reps):
                 for sm in (None, True, False):
                     for has_var in (True, False):
                         out.append(dict(kind=kind, which=which, sm=sm, has_var=has_var, ts=ts, table=table,
-                                        mean=mean, var=var if has_var else None))
+                                        tables=tables, mean=mean, var=var if has_var else None))
     # wrong lengths: the assertion
     for _ in range(4):
         ts = G.pooled_ts(rng, size=ctx.n(8, 30), multi=False, min_muts=2)
-        table = ts.dump_tables().nodes
+        tables = ts.dump_tables()
+        table = tables.nodes
         n = table.num_rows
         k = rng.choice([n - 1, n + 1])
         out.append(dict(kind="none", which="nodes", sm=rng.choice([None, True]), has_var=True, ts=ts, table=table,
+                        tables=tables,
                         mean=G.random_values(rng, k, "plain"), var=G.random_values(rng, rng.choice([n, k]), "plain")))
     return out
 
@@ -62,12 +64,11 @@ def describe(c):
 
 
 def replay_payload(c):
-    import tskit
     t = c["table"]
     return {"kind": c["kind"], "table": c["which"], "set_metadata": c["sm"],
-            "schema": repr(t.metadata_schema), "rows": [repr(b) for b in G.table_rows(t)],
-            "mean": [float(x).hex() for x in c["mean"]],
-            "var": None if c["var"] is None else [float(x).hex() for x in c["var"]]}
+            "schema": repr(t.metadata_schema), "rows": [repr(b) for b in G.table_rows(t)][:20],
+            "replay": {"fn": "set_time_metadata", "tables": G.tc_to_json(c["tables"]), "which": c["which"],
+                       "sm": c["sm"], "mean": G.hexlist(c["mean"]), "var": G.hexlist(c["var"])}}
 
 
 def oracle_direct(ctx, c, t1, exc, events):
@@ -120,7 +121,7 @@ def run_direct(ctx, model_ok, reps=None):
         for c, a, b in zip(cases, impl, model):
             a = (a[0], a[1], [list(r) for r in a[2]], list(a[3]))
             ctx.corr("set_time_metadata", a == b, "impl=%r model=%r" % (a, b),
-                     replay={"case": replay_payload(c), "impl": a, "model": b})
+                     replay=None if a == b else dict(replay_payload(c), impl=a, model=b))
 
 
 def fabricated_results(rng, ts, cls):
@@ -170,7 +171,9 @@ def run_modified(ctx):
         method = G.make_method(its, sm, cls)
         res = fabricated_results(rng, its, cls)
         payload = {"level": "get_modified_ts", "method": cls, "set_metadata": sm, "node_kind": kn,
-                   "mutation_kind": km, "tables": G.gen.ts_tables_dict(its)}
+                   "mutation_kind": km,
+                   "replay": {"fn": "get_modified", "tables": G.tc_to_json(its.dump_tables()), "cls": cls, "sm": sm,
+                              "res": G.results_to_json(res)}}
         ctx.case({k: payload[k] for k in ("level", "method", "set_metadata", "node_kind", "mutation_kind")},
                  nontrivial=sm is not False and cls != "maximization", kind="modified/" + cls)
         exc = None
@@ -223,7 +226,8 @@ def run_date(ctx):
         else:
             kw.update(population_size=1.0)
         payload = {"level": "date", "kwargs": {k: v for k, v in kw.items()}, "node_kind": kn,
-                   "mutation_kind": km, "tables": G.gen.ts_tables_dict(its)}
+                   "mutation_kind": km,
+                   "replay": {"fn": "date", "tables": G.tc_to_json(its.dump_tables()), "kw": G.plain(kw)}}
         ctx.case({"level": "date", "method": method, "set_metadata": sm, "node_kind": kn, "mutation_kind": km},
                  nontrivial=sm is not False and method != "maximization", kind="date/" + method)
         exc = None
@@ -259,5 +263,49 @@ def search(ctx):
 
 
 def replay(ctx, data):
-    print(data.get("detail"))
-    return False
+    """re-run one saved case; True iff the set_metadata policy holds on it"""
+    import tsdate
+    G.quiet_logging()
+    case = data.get("case") or {}
+    r = case.get("replay")
+    if not r:
+        print(str(case)[:3000])
+        return False
+    tables = G.tc_from_json(r["tables"])
+    before = len(ctx.oracle_fails) + len(ctx.known_hits)
+    if r["fn"] == "set_time_metadata":
+        ts = tables.tree_sequence()
+        table = getattr(tables, r["which"])
+        mean = [float(x) for x in G.unhexlist(r["mean"])]
+        var = None if r["var"] is None else [float(x) for x in G.unhexlist(r["var"])]
+        c = dict(kind="replay", which=r["which"], sm=r["sm"], has_var=var is not None, ts=ts, table=table,
+                 tables=tables, mean=mean, var=var)
+        t1, exc, events = G.call_set_time_metadata(G.make_method(ts, r["sm"]), table, mean, var, default_schema_of(table))
+        oracle_direct(ctx, c, t1, exc, events)
+    else:
+        its = tables.tree_sequence()
+        exc = ots = None
+        with G.LogTap() as tap:
+            try:
+                if r["fn"] == "date":
+                    kw = G.unplain(r["kw"])
+                    ots, fit = tsdate.date(its, **kw)
+                    node_mv, mut_mv = posterior_arrays(kw["method"], its, fit)
+                    sm, label = kw.get("set_metadata"), kw["method"]
+                else:
+                    res = G.results_from_json(r["res"])
+                    ots = G.make_method(its, r["sm"], r["cls"]).get_modified_ts(res)
+                    node_mv = None if res.posterior_var is None else (list(res.posterior_mean), list(res.posterior_var))
+                    mut_mv = None if res.mutation_var is None else (list(res.mutation_mean), list(res.mutation_var))
+                    sm, label = r["sm"], r["cls"]
+            except Exception as e:   # noqa: BLE001
+                exc = e
+        if exc is not None:
+            print("raises", repr(exc))
+            return False
+        check_output(ctx, label, its, ots, node_mv, mut_mv, sm, tap.events, case)
+    for sig, detail, _r in ctx.oracle_fails:
+        print("property fails:", sig, detail)
+    for f, sig in ctx.known_hits:
+        print("property fails (known finding %s):" % f.get("id"), sig)
+    return len(ctx.oracle_fails) + len(ctx.known_hits) == before
